@@ -334,8 +334,12 @@ impl SearchState {
 
         let next_mtu = (self.lower_bound as i32 + self.upper_bound as i32) / 2;
 
-        // Binary search stopping condition
-        if ((next_mtu - self.last_probed_mtu as i32).unsigned_abs() as u16) < self.minimum_change {
+        // Binary search stopping condition. Sizes at or below the lower bound are already known to
+        // work, so probing them (possible with a `minimum_change` below 3) could only ever lower
+        // the MTU estimate.
+        if ((next_mtu - self.last_probed_mtu as i32).unsigned_abs() as u16) < self.minimum_change
+            || next_mtu <= self.lower_bound as i32
+        {
             // Special case: if the upper bound is far enough, we want to probe it as a last
             // step (otherwise we will never achieve the upper bound)
             if self.upper_bound.saturating_sub(self.last_probed_mtu) >= self.minimum_change {
